@@ -255,16 +255,16 @@ class ExprMixin:
             r = x - y
         elif op is ast.Mult:
             r = x * y
-        elif op is ast.FloorDiv or (op is ast.Div and self.lang == 'c'):
+        elif op is ast.FloorDiv or (op is ast.Div and self.lang == 'c' and not self.spec_mode):
             self.oblige('div0', y != 0, st, node, 'division by zero')
-            if self.lang == 'c':
+            if self.lang == 'c' and not self.spec_mode:
                 r = c_div(x, y)
             else:
                 self.oblige('div-positive', y > 0, st, node, 'floor division encoded for positive divisors only')
                 r = x / y
         elif op is ast.Mod:
             self.oblige('div0', y != 0, st, node, 'modulo by zero')
-            if self.lang == 'c':
+            if self.lang == 'c' and not self.spec_mode:
                 r = c_mod(x, y)
             else:
                 self.oblige('div-positive', y > 0, st, node, 'modulo encoded for positive divisors only')
@@ -281,12 +281,12 @@ class ExprMixin:
                 raise Unsupported('integer power with symbolic exponent')
         else:
             raise Unsupported('integer operator %s' % op.__name__)
-        if self.lang == 'c':
+        if self.lang == 'c' and not self.spec_mode:
             self.overflow(r, node, st)
         return r
 
     def concrete_binop(self, op, a, b, node, st):
-        if self.lang == 'c' and is_cint(a) and is_cint(b):
+        if self.lang == 'c' and not self.spec_mode and is_cint(a) and is_cint(b):
             if op in (ast.Div, ast.FloorDiv, ast.Mod):
                 if b == 0:
                     self.oblige('div0', False, st, node, 'division by zero')
